@@ -112,6 +112,37 @@ pub fn gen(seed: u64, n: usize, _tier: &str) -> Vec<Case> {
         ops.push(cmd_op(2, &[b"GET", b"probe"]));
         cases.push(Case { id: format!("expiry-{}-{}", ei, id), ops, outs: vec![] }); id += 1;
     }
+    // a second WATCH of the same key keeps the first baseline (3f1b680): a change made between the two
+    // WATCHes still aborts; in another database it is another watch; UNWATCH forgets both
+    for (wi, how) in ["rewatch-after-change", "rewatch-no-change", "rewatch-other-db", "rewatch-then-unwatch", "watch-twice-one-command"].iter().enumerate() {
+        let mut ops = vec![conn_op(1), conn_op(2), cmd_op(2, &[b"SET", b"wk", b"v"])];
+        match *how {
+            "rewatch-after-change" => { ops.push(cmd_op(1, &[b"WATCH", b"wk"])); ops.push(cmd_op(2, &[b"SET", b"wk", b"changed"])); ops.push(cmd_op(1, &[b"WATCH", b"wk"])); }
+            "rewatch-no-change" => { ops.push(cmd_op(1, &[b"WATCH", b"wk"])); ops.push(cmd_op(1, &[b"WATCH", b"wk", b"kg"])); }
+            "rewatch-other-db" => { ops.push(cmd_op(1, &[b"WATCH", b"wk"])); ops.push(cmd_op(2, &[b"SET", b"wk", b"changed"])); ops.push(cmd_op(1, &[b"SELECT", b"1"])); ops.push(cmd_op(1, &[b"WATCH", b"wk"])); }
+            "rewatch-then-unwatch" => { ops.push(cmd_op(1, &[b"WATCH", b"wk"])); ops.push(cmd_op(2, &[b"SET", b"wk", b"changed"])); ops.push(cmd_op(1, &[b"WATCH", b"wk"])); ops.push(cmd_op(1, &[b"UNWATCH"])); }
+            _ => { ops.push(cmd_op(1, &[b"WATCH", b"wk", b"wk", b"kg", b"wk"])); ops.push(cmd_op(2, &[b"APPEND", b"wk", b"x"])); }
+        }
+        ops.push(cmd_op(1, &[b"MULTI"])); ops.push(cmd_op(1, &[b"SET", b"probe", b"ran"])); ops.push(cmd_op(1, &[b"EXEC"]));
+        ops.push(cmd_op(2, &[b"GET", b"probe"])); ops.push(cmd_op(2, &[b"SELECT", b"1"])); ops.push(cmd_op(2, &[b"GET", b"probe"]));
+        cases.push(Case { id: format!("rewatch-{}-{}", wi, id), ops, outs: vec![] }); id += 1;
+    }
+    // WATCH on a key that is past its deadline but not yet swept (d9330f8): the key is absent when the
+    // watch begins, nothing changes afterwards, EXEC runs; re-creating it afterwards aborts
+    for (wi, how) in ["expired-then-watch", "expired-watch-recreate", "expired-watch-sweep", "live-watch-then-expires"].iter().enumerate() {
+        let mut ops = vec![conn_op(1), conn_op(2), cmd_op(2, &[b"VERIF", b"SWEEP", b"PAUSE"])];
+        ops.push(cmd_op(2, &[b"SET", b"wk", b"v", b"PX", b"200"])); ops.push(cmd_op(2, &[b"RPUSH", b"wl", b"a"])); ops.push(cmd_op(2, &[b"PEXPIRE", b"wl", b"200"]));
+        if *how == "live-watch-then-expires" { ops.push(cmd_op(1, &[b"WATCH", b"wk", b"wl"])); ops.push(sleep_op(300)); }
+        else { ops.push(sleep_op(300)); ops.push(cmd_op(1, &[b"WATCH", b"wk", b"wl"])); }
+        match *how {
+            "expired-watch-recreate" => ops.push(cmd_op(2, &[b"SET", b"wk", b"again"])),
+            "expired-watch-sweep" => ops.push(sweep_op()),
+            _ => {}
+        }
+        ops.push(cmd_op(1, &[b"MULTI"])); ops.push(cmd_op(1, &[b"SET", b"probe", b"ran"])); ops.push(cmd_op(1, &[b"EXEC"]));
+        ops.push(cmd_op(2, &[b"GET", b"probe"])); ops.push(cmd_op(2, &[b"VERIF", b"INDEX", b"0"]));
+        cases.push(Case { id: format!("watchexp-{}-{}", wi, id), ops, outs: vec![] }); id += 1;
+    }
     // the watched key is a stream (with a group and a pending entry): stream writers, group commands, reads
     let c = |a: &[&[u8]]| -> Vec<Vec<u8>> { a.iter().map(|x| x.to_vec()).collect() };
     let stream_cmds: Vec<Vec<Vec<u8>>> = vec![
